@@ -181,3 +181,98 @@ func addParseExprCase(o *out, text string, params map[string]interface{}) (influ
 	o.addCaseVM(full, resp, text, full == req && asciiNoFloat(text) && len(params) == 0)
 	return e, err, pn
 }
+
+// parseStmtCase runs Parser.ParseStatement under recover: the response the model must give for op 9.
+func parseStmtCase(text string, params map[string]interface{}) (resp string, st influxql.Statement, err error, panicked interface{}) {
+	func() {
+		defer func() {
+			if r := recover(); r != nil {
+				panicked = r
+			}
+		}()
+		p := influxql.NewParser(strings.NewReader(text))
+		if params != nil {
+			p.SetParams(params)
+		}
+		influxql.VerifResetPushback()
+		st, err = p.ParseStatement()
+	}()
+	if panicked != nil {
+		return "(2)", nil, nil, panicked
+	}
+	if err != nil {
+		return errSexp(err), nil, err, nil
+	}
+	mt, mr := influxql.VerifMaxPushback()
+	var b sb
+	b.open(); b.atom(0); b.sp(); b.stmt(st); b.sp(); b.atom(int64(mt)); b.sp(); b.atom(int64(mr)); b.close()
+	return b.String(), st, nil, nil
+}
+
+func addParseStmtCase(o *out, text string, params map[string]interface{}) (influxql.Statement, error, interface{}) {
+	resp, st, err, pn := parseStmtCase(text, params)
+	req := "(9 " + textSexp(text) + " " + paramsSexp(params) + ")"
+	full := withOracles(text, params, req)
+	o.addCaseVM(full, resp, text, full == req && asciiNoFloat(text) && len(params) == 0)
+	return st, err, pn
+}
+
+func parseQueryCase(text string, params map[string]interface{}) (resp string, q *influxql.Query, err error, panicked interface{}) {
+	func() {
+		defer func() {
+			if r := recover(); r != nil {
+				panicked = r
+			}
+		}()
+		p := influxql.NewParser(strings.NewReader(text))
+		if params != nil {
+			p.SetParams(params)
+		}
+		influxql.VerifResetPushback()
+		q, err = p.ParseQuery()
+	}()
+	if panicked != nil {
+		return "(2)", nil, nil, panicked
+	}
+	if err != nil {
+		return errSexp(err), nil, err, nil
+	}
+	mt, mr := influxql.VerifMaxPushback()
+	var b sb
+	b.open(); b.atom(0); b.sp(); b.open()
+	for i, s := range q.Statements {
+		if i > 0 {
+			b.sp()
+		}
+		b.stmt(s)
+	}
+	b.close(); b.sp(); b.atom(int64(mt)); b.sp(); b.atom(int64(mr)); b.close()
+	return b.String(), q, nil, nil
+}
+
+func addParseQueryCase(o *out, text string, params map[string]interface{}) (*influxql.Query, error, interface{}) {
+	resp, q, err, pn := parseQueryCase(text, params)
+	req := "(10 " + textSexp(text) + " " + paramsSexp(params) + ")"
+	full := withOracles(text, params, req)
+	o.addCaseVM(full, resp, text, full == req && asciiNoFloat(text) && len(params) == 0)
+	return q, err, pn
+}
+
+// addPrintCase: stmt.String() vs the model's printer (op 11)
+func addPrintCase(o *out, st influxql.Statement) {
+	d := stmtSexp(st)
+	s := st.String()
+	o.addCaseVM("(11 "+d+")", textSexp(s), "String() of "+s, asciiNoFloat(s))
+}
+
+func propParseCorpus(o *out, r *rng, thorough bool) {
+	for _, s := range loadCorpus("statements.json") {
+		st, err, _ := addParseStmtCase(o, s, nil)
+		addParseQueryCase(o, s, nil)
+		if err == nil {
+			addPrintCase(o, st)
+		}
+	}
+}
+
+func init() { props["parsecorpus"] = propParseCorpus }
